@@ -75,12 +75,28 @@ def run(check):
     cases = []
     for name, flag, (sec, key), idx, lang in OPTS:
         for cli_present, file_present, discover in itertools.product([False, True], [False, True], ["-c", "ancestor"]):
-            cases.append((name, flag, sec, key, idx, lang, cli_present, file_present, discover))
+            # value kinds: ordinary words; the empty string given explicitly (an option / key that is present but empty is
+            # still present); the option repeating the file's value
+            kinds = [("word", "word")]
+            if cli_present:
+                kinds.append(("empty", "word"))
+            if file_present:
+                kinds.append(("word", "empty"))
+            if cli_present and file_present:
+                kinds.append(("same", "word"))
+            for vk in kinds:
+                cases.append((name, flag, sec, key, idx, lang, cli_present, file_present, discover, vk))
     reps = 3 if check.thorough else 1
     for rep in range(reps):
-        for (name, flag, sec, key, idx, lang, cli_present, file_present, discover) in cases:
+        for (name, flag, sec, key, idx, lang, cli_present, file_present, discover, vk) in cases:
             cli_val = "Cli%d" % rng.randint(0, 99) if "package" not in name else "com.cli%d.pk" % rng.randint(0, 99)
             file_val = "File%d" % rng.randint(0, 99) if "package" not in name else "org.file%d.pk" % rng.randint(0, 99)
+            if vk[0] == "empty":
+                cli_val = ""
+            if vk[1] == "empty":
+                file_val = ""
+            if vk[0] == "same":
+                cli_val = file_val
             shared = {(sec, key): file_val} if file_present else {}
             # the other settings the languages need to run at all live in the file too
             tables = {"typescript": {"type_mappings": {"Url": "string"}}}
@@ -112,8 +128,9 @@ def run(check):
                     if extra:
                         cli7[[o[1] for o in OPTS].index(extra[0])] = extra[1]
                     ma = model([[S("config"), file7 if have_file else None, cli7, L == "go"]], with_unicode=False)[0]
-                    check.saw((name, cli_present, file_present, discover, L, rep), nontrivial=cli_present or file_present)
+                    check.saw((name, cli_present, file_present, discover, vk, L, rep), nontrivial=cli_present or file_present)
                     check.count("%s cli=%s file=%s" % (name, int(cli_present), int(file_present)))
+                    check.count("values option:%s key:%s" % (vk[0] if cli_present else "-", vk[1] if file_present else "-"))
                     want = cli_val if cli_present else file_val if file_present else ""
                     problem = None
                     if "err" in ma:
